@@ -57,6 +57,14 @@ static void part_a(void)
 			}
 		}
 	}
+	/* the end of the string: zero characters, zero length, no step forward */
+	if (nv_shard == 0) {
+		char z[4] = {0, 'q', 0, 0};
+		if (uc_len(z) != 0 || peek_re_uc_len(z) != 0 || uc_code(z) != 0 || uc_slen(z) != 0 || uc_end(z) != z || uc_chr(z, 0) != z ||
+				uc_chr(z, 3)[0] != '\0' || uc_off(z, 0) != 0)
+			nv_viol("c16-scalar", "kind=scalar at the terminating NUL: uc_len=%d re_len=%d uc_code=%d uc_slen=%d end=%ld chr0=%ld (all must be 0), character 3 of the empty string = %d",
+				uc_len(z), peek_re_uc_len(z), uc_code(z), uc_slen(z), (long) (uc_end(z) - z), (long) (uc_chr(z, 0) - z), uc_chr(z, 3)[0]);
+	}
 	nv_stat("scalars", n);
 	nv_stat("evaluations", n * 4);
 	nv_stat("states", n);
